@@ -224,6 +224,10 @@ void Groups::evalArguments( int argc, char* argv[]) noexcept( false)
       for (auto const& stored_group : mArgGroups)
       {
          stored_group.mpArgHandler->checkMissingMandatoryCardinality();
+         // the constraints defined in a handler must be fulfilled as in a
+         // stand-alone evaluation
+         stored_group.mpArgHandler->mConstraints.checkRequired();
+         stored_group.mpArgHandler->checkGlobalConstraints();
       } // end for
    } // end if
 
